@@ -135,7 +135,7 @@ def run(check):
       return False
     for m_ in repo.modules.values():
       own = {id(x) for x in ast.walk(sc.node)} if m_ is sc.module else set()
-      bases = {id(b) for c_ in ast.walk(m_.tree) if isinstance(c_, ast.ClassDef) for b in c_.bases}
+      bases = {id(y) for c_ in ast.walk(m_.tree) if isinstance(c_, ast.ClassDef) for b in c_.bases for y in ast.walk(b)}
       for x in ast.walk(m_.tree):
         if id(x) in own or id(x) in bases:
           continue
